@@ -58,6 +58,8 @@ impl<const BITS: usize, const LIMBS: usize> Uint<BITS, LIMBS> {
     #[inline]
     #[doc(alias = "randomize_using")]
     pub fn randomize_with<R: rand::RngCore + ?Sized>(&mut self, rng: &mut R) {
+        #[cfg(feature = "recmo_uint_verif")]
+        crate::verif_hooks::hit(41);
         rng.fill(&mut self.limbs[..]);
         self.apply_mask();
     }
